@@ -47,7 +47,7 @@ Lemma PosD_closed d p q : PosD (S d) p -> is_over p = false -> In q (children ge
 Proof.
   intros (HW & Hm) EO Hq. split; [apply (PosW_closed d p q HW EO Hq)|].
   destruct HW as (Hb & W). apply in_children_mv in Hq. destruct Hq as (m & _ & E).
-  destruct (W EO) as (_ & K). destruct (K m q E) as (H64 & _).
+  pose proof (W EO) as K. destruct (K m q E) as (H64 & _).
   destruct (base_ok_step p m q Hb E H64) as (_ & Em & _). lia.
 Qed.
 
@@ -72,7 +72,7 @@ Theorem analyze_exact_winner : c_eval cfg = evaluate_winner ->
 Proof.
   intros Hev k s p sk pv v d acc c HS Hb HW H. destruct Hprecise as (P1 & P2 & P3).
   destruct (analyze_precise_exactx false gen_basis cfg k P1 P2 P3 PosW PosW_closed
-              (fun d p m q HP EO => base_ok_hint p m q (proj1 HP)) PosW_len
+              (fun d p m q HP EO => base_ok_hint p m q (proj1 HP))
               (fun d p HP EO => base_ok_live p (proj1 HP) EO)
               ltac:(intros d0 p0 _; rewrite Hev; apply evaluate_winner_bounded)
               (c_depth cfg) s p sk pv v d acc c HS) as (A & _ & B); [|exact H|split; assumption].
@@ -87,7 +87,7 @@ Theorem analyze_exact_default : c_eval cfg = default_eval ->
 Proof.
   intros Hev k s p sk pv v d acc c HS Hb HW Hm H. destruct Hprecise as (P1 & P2 & P3).
   destruct (analyze_precise_exactx false gen_basis cfg k P1 P2 P3 PosD PosD_closed
-              (fun d p m q HP EO => base_ok_hint p m q (proj1 (proj1 HP))) (fun d p HP => PosW_len d p (proj1 HP))
+              (fun d p m q HP EO => base_ok_hint p m q (proj1 (proj1 HP)))
               (fun d p HP EO => base_ok_live p (proj1 (proj1 HP)) EO)
               ltac:(intros d0 p0 ((Hb0 & _) & Hm0); rewrite Hev; apply default_eval_bounded; [apply Hb0|destruct Hb0 as (_ & _ & M0 & _); lia])
               (c_depth cfg) s p sk pv v d acc c HS) as (A & _ & B); [|exact H|split; assumption].
